@@ -28,6 +28,8 @@ var envConcPhases = []struct{ name, what string }{
 	{"lin", "2-3 goroutines x 2-3 operations on one shared scope, released together (all sequential orders enumerated)"},
 	{"firsts", "4 goroutines: first DefineType + Define on a fresh scope"},
 	{"shadow", "a symbol bound in the shared scope and in its parent: Set / Get / Type from one goroutine while another deletes and re-defines the inner binding"},
+	{"listings", "several goroutines list the symbols / types of a scope (and print it) at the same moment, right after a definition and after a deletion: pure reads, each sees the whole table"},
+	{"churn", "one goroutine deletes 400 old symbols of a scope while another defines 200 new ones; every Define that returned nil is there afterwards, every deleted symbol is gone"},
 	{"snapshot", "writer: Define(v_i), DefineType(t_i) on one scope; readers: Copy / DeepCopy and symbol listings"},
 	{"stress", "8 goroutines x 400 random operations incl. String, DefineType, Type, DeepCopy, symbol listings on one scope"},
 }
@@ -432,6 +434,166 @@ func streamEnvConc(o *Out, r *rand.Rand, n int, thorough bool) {
 				Detail: "an enclosing scope binds x throughout, yet " + bad + ": no one-at-a-time order of the calls produces that"})
 		}
 	}
+	// listings: pure reads of one scope from several goroutines at once, started right after the table changed (whatever
+	// a read memoises must not be written while only the read lock is held: the race detector sees that; the contents are
+	// checked in any case)
+	listRounds := 400
+	if thorough {
+		listRounds = 4000
+	}
+	if !on("listings") {
+		listRounds = 0
+	}
+	for round := 0; round < listRounds; round++ {
+		desc := "scope with v0..v5 and types t0..t2; Define(extra) / Delete(v0) / DefineType(t3), then 4 goroutines at once: GetValueSymbols, GetTypeSymbols, String, Copy"
+		if round == 0 {
+			current.Store(desc)
+		}
+		atomic.AddInt64(&beat, 1)
+		parent := env.NewEnv()
+		shared := parent.NewEnv()
+		for i := 0; i < 6; i++ {
+			_ = shared.Define(fmt.Sprintf("v%d", i), int64(i))
+		}
+		for i := 0; i < 3; i++ {
+			_ = shared.DefineType(fmt.Sprintf("t%d", i), int64(0))
+		}
+		wantVals, wantTypes := 6, 3
+		switch round % 3 {
+		case 0:
+			_ = shared.Define("extra", int64(9))
+			wantVals = 7
+		case 1:
+			shared.Delete("v0")
+			wantVals = 5
+		case 2:
+			_ = shared.DefineType("t3", "")
+			wantTypes = 4
+		}
+		var wg sync.WaitGroup
+		start := make(chan struct{})
+		bad := make([]string, 8)
+		for g := 0; g < 8; g++ {
+			wg.Add(1)
+			go func(g int) {
+				defer wg.Done()
+				<-start
+				switch g % 4 {
+				case 0:
+					if n := len(shared.GetValueSymbols()); n != wantVals {
+						bad[g] = fmt.Sprintf("GetValueSymbols lists %d symbols, the scope holds %d", n, wantVals)
+					}
+				case 1:
+					if n := len(shared.GetTypeSymbols()); n != wantTypes {
+						bad[g] = fmt.Sprintf("GetTypeSymbols lists %d types, the scope holds %d", n, wantTypes)
+					}
+				case 2:
+					_ = shared.String()
+				case 3:
+					if c := shared.Copy(); len(c.GetValueSymbols()) != wantVals || len(c.GetTypeSymbols()) != wantTypes {
+						bad[g] = fmt.Sprintf("a Copy holds %d symbols and %d types, the scope %d and %d", len(c.GetValueSymbols()), len(c.GetTypeSymbols()), wantVals, wantTypes)
+					}
+				}
+			}(g)
+		}
+		close(start)
+		waitOrDeadlock(o, &wg, desc)
+		o.Sum.Hist["listing-rounds"]++
+		failed := false
+		for _, b := range bad {
+			if b != "" {
+				o.Fail(Failure{Oracle: "sequentially-consistent", Key: "env-listing", Input: desc, Detail: b})
+				failed = true
+				break
+			}
+		}
+		if failed {
+			break
+		}
+	}
+	o.Sum.Evaluations += listRounds
+	// churn: deletions and definitions of DIFFERENT symbols on one scope at the same time. Whatever the order, afterwards
+	// the scope holds exactly the kept and the newly defined symbols (an update must not be lost to a concurrent delete).
+	churnRounds := 150
+	if thorough {
+		churnRounds = 1500
+	}
+	if !on("churn") {
+		churnRounds = 0
+	}
+	for round := 0; round < churnRounds; round++ {
+		desc := "scope with old0..old399 and keep0..keep9; goroutine A: Delete(old_i) for all i (half of them through DeleteGlobal from a child scope); goroutine B: Define(new_j, j) for j < 200; goroutine C: Set(keep_k, round)"
+		if round == 0 {
+			current.Store(desc)
+		}
+		atomic.AddInt64(&beat, 1)
+		parent := env.NewEnv()
+		shared := parent.NewEnv()
+		child := shared.NewEnv()
+		for i := 0; i < 400; i++ {
+			_ = shared.Define(fmt.Sprintf("old%d", i), int64(i))
+		}
+		for k := 0; k < 10; k++ {
+			_ = shared.Define(fmt.Sprintf("keep%d", k), int64(-1))
+		}
+		var wg sync.WaitGroup
+		start := make(chan struct{})
+		wg.Add(3)
+		go func() {
+			defer wg.Done()
+			<-start
+			for i := 0; i < 400; i++ {
+				if i%2 == 0 {
+					shared.Delete(fmt.Sprintf("old%d", i))
+				} else {
+					child.DeleteGlobal(fmt.Sprintf("old%d", i))
+				}
+			}
+		}()
+		var defErr error
+		go func() {
+			defer wg.Done()
+			<-start
+			for j := 0; j < 200; j++ {
+				if err := shared.Define(fmt.Sprintf("new%d", j), int64(j)); err != nil {
+					defErr = err
+				}
+			}
+		}()
+		go func() {
+			defer wg.Done()
+			<-start
+			for k := 0; k < 10; k++ {
+				_ = shared.Set(fmt.Sprintf("keep%d", k), int64(round))
+			}
+		}()
+		close(start)
+		waitOrDeadlock(o, &wg, desc)
+		o.Sum.Hist["churn-rounds"]++
+		missing, stale, leftover := 0, 0, 0
+		for j := 0; j < 200; j++ {
+			if v, err := shared.Get(fmt.Sprintf("new%d", j)); err != nil || v != int64(j) {
+				missing++
+			}
+		}
+		for k := 0; k < 10; k++ {
+			if v, err := shared.Get(fmt.Sprintf("keep%d", k)); err != nil || v != int64(round) {
+				stale++
+			}
+		}
+		for i := 0; i < 400; i++ {
+			if _, err := shared.Get(fmt.Sprintf("old%d", i)); err == nil {
+				leftover++
+			}
+		}
+		if defErr != nil || missing != 0 || stale != 0 || leftover != 0 || len(shared.GetValueSymbols()) != 210 {
+			o.Fail(Failure{Oracle: "sequentially-consistent", Key: "env-lost-update:churn", Input: desc,
+				Detail: fmt.Sprintf("round %d: %d of 200 symbols whose Define returned nil are missing, %d of 10 Set values are stale, %d deleted symbols are still there, the scope lists %d symbols (expected 210), define error %v: no one-at-a-time order of the calls gives that",
+					round, missing, stale, leftover, len(shared.GetValueSymbols()), defErr)})
+			break
+		}
+	}
+	o.Sum.Evaluations += churnRounds
 	// snapshot consistency: one writer runs a known sequence (value v_i, then type t_i, for i = 0..K-1) while
 	// readers copy the scope; every copy must be one of the K*2+1 states the scope passed through:
 	// values {v_0..v_a-1}, types {t_0..t_b-1} with b <= a <= b+1
